@@ -59,7 +59,10 @@ def make_archive(kind, eps):
 def make_ind(ind, k):
     from artap.individual import Individual
     c, m, f = ind
-    o = Individual([float(k)])
+    # decision vectors are not part of the property: several offered solutions may share one (stochastic or
+    # re-evaluated objectives) - every third history position reuses a vector, so that nothing in the archive may
+    # identify a member by its design instead of by position / identity
+    o = Individual([float(k if k % 3 else 0)])
     o.costs_signed = list(c) + [m]
     o.features["verif_feature"] = f
     o.custom["k"] = k
